@@ -451,7 +451,38 @@ func c01PrintfCases() []c01Run {
 	return out
 }
 
-var c01ValueList = append(append(append(append(append(c01PrintfCases(), c01ValueCases()...), c01StoreCases()...), c01TinyInputs()...), c01HeaderSignals()...), c01ReceiverCases()...)
+// ---- an expression that reassigns something another part of the same expression or statement is using
+func c01SelfRefCases() []c01Run {
+	var out []c01Run
+	inits := []string{"x = [1, 2]", "x = {k: [1], j: {m: 1}}", "x = 'str'", "x = 5", "x = null", "x = [[1, 2], [3]]"}
+	news := []string{"1", "'s'", "null", "[]", "{}", "[[9]]", "{k: {m: 2}}"}
+	forms := []string{
+		"x[x = N]", "x[0][x = N]", "x.k[x = N]", "x[(x = N) is null]", "print x[0], (x = N), x[0]",
+		"x[0] = (x = N)", "x.k = (x = N)", "x[0][1] = (x = N)", "x.k.m = (x = N)", "x.j.m = (x.j = N)", "x[0] += (x = N)", "x[x = N] = 1", "x[0][x = N] = 2", "x[1] = x[0] = (x = N)",
+		"x[0]++ + (x = N)", "(x = N) + x[0]++", "++x[(x = N) is null]", "y = [x, x = N, x]", "y = {a: x, b: (x = N), c: x}",
+		"f(x, x = N, x)", "f(x[0], x = N)", "f(x = N)(1)", "x.length(x = N)", "f = (f = N)", "f(f = N)", "g(g = N)",
+		"for (e in x) { x = N; print e }", "for (i, e in x) { x[i] = (x = N) }", "while (x[0] != N && c++ < 3) { x = N }", "for (x[0] = 0; c++ < 2; x = N) { print x }",
+		"match (x) { [a, b] => (x = N), {k: q} => (x = N), other => (x = N) }", "match (x = N) { v => x }", "print match (x) { other => [other, x = N, other] }",
+		"x ~ (x = N)", "(x = N) ~ x", "x && (x = N) && x[0]", "x == (x = N)", "x + (x = N) + x", "-x[x = N]", "printf('%v %v', x, x = N)", "print json([x, x = N])", "$ = (x = N); print $, x", "$.a = ($ = N)",
+	}
+	n := 0
+	for _, in := range inits {
+		for fi, f := range forms {
+			for ni, nv := range news {
+				if (fi+ni)%4 != n%4 {
+					continue
+				}
+				st := strings.ReplaceAll(f, "N", nv)
+				prog := "function f(a, b, c) { return [a, b, c] } function g(a) { return a } { " + in + "; c = 0; print 'pre'\n" + st + "\nprint 'post', x }"
+				out = append(out, c01Run{prog: prog, input: []byte(`{"a": [1]}`), name: "self-reference:" + in + ":" + st})
+			}
+			n++
+		}
+	}
+	return out
+}
+
+var c01ValueList = append(c01SelfRefCases(), append(append(append(append(append(c01PrintfCases(), c01ValueCases()...), c01StoreCases()...), c01TinyInputs()...), c01HeaderSignals()...), c01ReceiverCases()...)...)
 
 // ---- sampled
 
@@ -607,7 +638,7 @@ func c01Run_(c *Case) {
 func init() {
 	register(&Prop{
 		ID: "C01", Level: "exploration",
-		Rule:          "outcome classification only (no model): every run must end as ok / syntax / runtime / json; a recovered panic, a control-flow sentinel or any other error value, the death of the worker process, and for the binary a signal, a Go trace on stderr or a non-zero status without diagnostic are violations. Enumerated: {next, exit, break, continue, return, return v} x 16 placements (BEGIN, END, BEGINFILE, ENDFILE, pattern body, pattern expression via a match block, function called from each of the five rule kinds, match block in BEGIN / pattern rule / function, -r selector via a match block alone and after a plain selector) x {plain, while, for, for-in, nested for-in, nested if} x 4 inputs, all also through the binary; 28 nestable constructs nested 1000 / 8000 / as deep as 64 KiB allows, and 6 of them inside a self-recursive function (recursion x nesting); 22 cyclic / shared shapes (built twice) x 62 operations that walk a value (comparison, contains, sort, match, iteration, rendering, arithmetic, member chains, stores into itself) and 15 histories that shrink an array through one of two references and then walk it through the other; 25 store forms (plain, nested, through fresh names, through $, with ++ / += / --) x 18 keys of every kind (booleans, null, unset, containers, regex, function, fractions, negative, huge) on bases of every kind; every one-byte input and 50 short prefixes of byte-order marks, multi-byte sequences and JSON tokens; the six signals raised from every loop-header position / condition / print list through a match block, with and without an enclosing loop, at rule level and inside functions; method calls on every receiver kind whose argument reassigns the receiver's own location to a value of another kind before the call happens (24 call forms x 8 receivers x 9 new values); printf with every width 1-12 in three padding styles on strings whose byte and character counts differ; all also through the binary. Sampled: whole-grammar random programs in random layouts, token-level mutations, byte-level mutations of these and of the repository's fuzz corpus, raw bytes; hostile inputs (JSONL, truncated, stray closers, nesting to 20000, garbage, empty); generated / mutated / garbage selectors; EvalExpression on JSON-typed roots; fuzzing flag on and off; step budget 50000 (budget-exhausted runs are inconclusive). Non-trivial = at least 3 interpreter steps executed (hook) or a syntax error in a text of >= 10 bytes; distinct by hash of program+selectors+input.",
+		Rule:          "outcome classification only (no model): every run must end as ok / syntax / runtime / json; a recovered panic, a control-flow sentinel or any other error value, the death of the worker process, and for the binary a signal, a Go trace on stderr or a non-zero status without diagnostic are violations. Enumerated: {next, exit, break, continue, return, return v} x 16 placements (BEGIN, END, BEGINFILE, ENDFILE, pattern body, pattern expression via a match block, function called from each of the five rule kinds, match block in BEGIN / pattern rule / function, -r selector via a match block alone and after a plain selector) x {plain, while, for, for-in, nested for-in, nested if} x 4 inputs, all also through the binary; 28 nestable constructs nested 1000 / 8000 / as deep as 64 KiB allows, and 6 of them inside a self-recursive function (recursion x nesting); 22 cyclic / shared shapes (built twice) x 62 operations that walk a value (comparison, contains, sort, match, iteration, rendering, arithmetic, member chains, stores into itself) and 15 histories that shrink an array through one of two references and then walk it through the other; 25 store forms (plain, nested, through fresh names, through $, with ++ / += / --) x 18 keys of every kind (booleans, null, unset, containers, regex, function, fractions, negative, huge) on bases of every kind; every one-byte input and 50 short prefixes of byte-order marks, multi-byte sequences and JSON tokens; the six signals raised from every loop-header position / condition / print list through a match block, with and without an enclosing loop, at rule level and inside functions; method calls on every receiver kind whose argument reassigns the receiver's own location to a value of another kind before the call happens (24 call forms x 8 receivers x 9 new values); 43 statement forms in which one part reassigns a variable that another part of the same statement is using (index base, store target, argument list, loop iterable, match subject, operands) on 6 initial values; printf with every width 1-12 in three padding styles on strings whose byte and character counts differ; all also through the binary. Sampled: whole-grammar random programs in random layouts, token-level mutations, byte-level mutations of these and of the repository's fuzz corpus, raw bytes; hostile inputs (JSONL, truncated, stray closers, nesting to 20000, garbage, empty); generated / mutated / garbage selectors; EvalExpression on JSON-typed roots; fuzzing flag on and off; step budget 50000 (budget-exhausted runs are inconclusive). Non-trivial = at least 3 interpreter steps executed (hook) or a syntax error in a text of >= 10 bytes; distinct by hash of program+selectors+input.",
 		NumCases:      c01Cases,
 		Run:           c01Run_,
 		MinConclusive: func(tier string) int { return 20000 },
